@@ -52,6 +52,7 @@ pub fn mix(seed: u64, index: u64) -> u64 {
     splitmix(&mut y)
 }
 
+#[derive(Clone)]
 pub struct Choices {
     rng: Option<Rng>,
     replay: Vec<u32>,
@@ -90,6 +91,22 @@ impl Choices {
             Some(rng) => (rng.next() >> 33) as u32 % n,
             None => {
                 let v = self.replay.get(self.pos).copied().unwrap_or(0) % n;
+                self.pos += 1;
+                v
+            }
+        };
+        self.log.push(v);
+        v
+    }
+
+    /// A pick whose generated value is fixed (`value`) but which a replayed
+    /// or shrunk log may override: lets an engine that normally enumerates a
+    /// dimension replay one point of it.
+    pub fn pick_forced(&mut self, n: u32, value: u32) -> u32 {
+        let v = match &mut self.rng {
+            Some(_) => value % n,
+            None => {
+                let v = self.replay.get(self.pos).copied().unwrap_or(value) % n;
                 self.pos += 1;
                 v
             }
